@@ -567,14 +567,25 @@ def seipdv2(ctx, P):
     chunk_nonce(ctx, P)
 
 
+def chunk_encrypt_step(ctx):
+    """The function of the SEIPDv2 stream encryptor that pulls the source and encrypts a data chunk (found by what it does, not by name)."""
+    for p, r in sorted(ctx.f.bodies.items()):
+        if p.startswith('crypto::aead::encryptor::StreamEncryptor::<R>::') and r['kind'] != 'Closure':
+            b = ctx.wrap(r)
+            if b.calls(r'AeadAlgorithm::encrypt_in_place$') and b.calls(r'util::fill_buffer$|io::Read::read$'):
+                return b
+    return None
+
+
 def chunk_nonce(ctx, P):
     """RFC 9580 §5.13.2: the chunk nonce is the derived IV followed by the big-endian 64-bit chunk index.  Both stream directions
     overwrite the last eight nonce octets from the incremented index (copy, not a running XOR) on every successful step."""
     import re as _re
     for path, nm, fld in ((AD + 'decrypt', 'decrypt', r'field:ModeData::(Rfc9580|Gnupg)\.(nonce|info)$'),
-                          ('crypto::aead::encryptor::StreamEncryptor::<R>::fill_buffer', 'encrypt', r'field:StreamEncryptor\.nonce$')):
-        b = ctx.body(path)
+                          (None, 'encrypt', r'field:StreamEncryptor\.nonce$')):
+        b = ctx.body(path) if path else chunk_encrypt_step(ctx)
         if b is None:
+            ctx.check(P + ':v2:%s:anchor' % nm, 'R-table', 'the chunk %s step is found' % nm, False, missing='no function of the stream %sor pulls the source and runs the chunk primitive' % nm[:-1] if nm == 'encrypt' else path)
             continue
         oks = ok_exit_blocks(b)
         cps = []
